@@ -87,6 +87,11 @@ FUNCS = [
                                                   "opaque": ["txt"]}),
     ("rtrlib/rtr/packets.c", "rtr_send_error_pdu", {"xworld": "struct rtr_socket", "mem": ["erroneous_pdu", "err_text"], "writes": True,
                                                      "memlocals": ["msg"], "externs": {"rtr_send_pdu": {"ret": True, "recmem": (1, 2), "args": [2]}}}),
+    ("rtrlib/rtr/packets.c", "rtr_send_error_pdu_from_host", {"xworld": "struct rtr_socket", "mem": ["erroneous_pdu", "err_text"], "writes": True,
+                                                               "memlocals": ["pdu"], "externs": {"rtr_pdu_to_network_byte_order": {"fill": (0, None)}}}),
+    ("rtrlib/rtr/packets.c", "rtr_send_pdu", {"xworld": "struct rtr_socket", "mem": ["pdu"], "writes": True, "memlocals": ["pdu_converted"],
+                                               "externs": {"rtr_pdu_to_network_byte_order": {"fill": (0, None)},
+                                                           "tr_send_all": {"ret": True, "recmem": (1, 2), "args": [2, 3]}}}),
     ("rtrlib/rtr/packets.c", "rtr_set_last_update", {"xworld": "struct rtr_socket"}),
     ("rtrlib/rtr/packets.c", "rtr_handle_error_pdu", {"xworld": "struct rtr_socket", "mem": ["buf"]}),
     ("rtrlib/rtr/packets.c", "rtr_handle_cache_response_pdu", {"xworld": "struct rtr_socket", "mem": ["pdu"]}),
@@ -1379,6 +1384,8 @@ class Fn:
         bad("no handler for external call '%s'" % name, n)
 
     def is_extern(self, name):
+        if name in self.root.opts.get("externs", {}):
+            return True
         return name in EXTERNX if self.root.xstate else name in EXTERN
 
     def state_var(self):
@@ -1390,7 +1397,7 @@ class Fn:
 
     def emit_xextern(self, n, env, k):
         name = self.callee_name(n)
-        spec = self.root.opts.get("externs", {}).get(name, EXTERNX[name])
+        spec = self.root.opts.get("externs", {}).get(name) or EXTERNX[name]
         args = n["inner"][1:]
         gs, rec = [], []
         for idx in spec.get("args", []):
